@@ -80,6 +80,29 @@ Proof.
     + apply IHl; auto. lia.
 Qed.
 
+(* weighted sums (live-block and live-element accounting) *)
+Fixpoint wsum {A} (f : A -> Z) (l : list A) : Z := match l with [] => 0%Z | x :: t => (f x + wsum f t)%Z end.
+
+Lemma wsum_app {A} (f : A -> Z) l l' : wsum f (l ++ l') = (wsum f l + wsum f l')%Z.
+Proof. induction l; simpl; auto. rewrite IHl. lia. Qed.
+
+Lemma wsum_upd {A} (f : A -> Z) l i x y : nth_error l i = Some y -> wsum f (upd l i x) = (wsum f l - f y + f x)%Z.
+Proof.
+  revert i; induction l; intros [|i] H; simpl in *; try discriminate.
+  - inversion H; subst. lia.
+  - rewrite (IHl i H). lia.
+Qed.
+
+Lemma wsum_ext {A} (f g : A -> Z) l : (forall i x, nth_error l i = Some x -> f x = g x) -> wsum f l = wsum g l.
+Proof.
+  induction l; intros H; simpl; auto. rewrite (H 0%nat a eq_refl). f_equal. apply IHl. intros i x E. apply (H (S i) x E).
+Qed.
+
+Lemma wsum_zero {A} (f : A -> Z) l : (forall i x, nth_error l i = Some x -> f x = 0%Z) -> wsum f l = 0%Z.
+Proof.
+  induction l; intros H; simpl; auto. rewrite (H 0%nat a eq_refl). rewrite IHl; auto. intros i x E. apply (H (S i) x E).
+Qed.
+
 Lemma take_all d : take (len d) d = d.
 Proof. unfold take, len. rewrite Nat2N.id. apply firstn_all. Qed.
 
